@@ -93,12 +93,27 @@ class Geo:
             self.rows = spec["rows"]
         self.vmin = dec(spec["min"])
         self.vmax = dec(spec["max"])
+        # plates with more rows than letters: the statements define no IDs beyond row Z, so the IDs are the ones
+        # the library's own `wells` array reported when the world was made (see world.resolve_tall)
+        self.ids = spec.get("ids")
+        self.rev = None
+        if self.ids:
+            self.rev = {self.ids[r][c]: (r, c) for r in range(len(self.ids)) for c in range(len(self.ids[r]))}
 
     def well_id(self, r, c):
+        if self.ids and r < len(self.ids) and c < len(self.ids[r]):
+            return self.ids[r][c]
         return well_id(r, c)
 
     def parse(self, wid):
         """well id -> (id_row, col); raises KeyError for ids outside the labware."""
+        if self.rev is not None:
+            if not isinstance(wid, str) or wid not in self.rev:
+                raise KeyError(wid)
+            r, c = self.rev[wid]
+            if r >= self.idrows or c >= self.cols:
+                raise KeyError(wid)
+            return r, c
         if not isinstance(wid, str) or len(wid) < 3:
             raise KeyError(wid)
         row = wid[0]
